@@ -211,93 +211,3 @@ Lemma maybe_style_no_spec : forall rv lv e1,
   maybe_style rv lv = Ok [].
 Proof. intros rv lv e1 [H|H]; unfold maybe_style; rewrite H; reflexivity. Qed.
 
-(* ---- parse_css_spec on rendered spec lists: the spec side ---------------------------------------------
-   A spec is (property, number, unit); a list is rendered with `;` between the
-   items.  The statement is checked by evaluation over the token space below
-   (all lists of at most two specs), which is why the theorem carries the bound. *)
-Definition a2s (l : list nat) : str := map N.of_nat l.
-
-Definition css_props : list str :=
-  [a2s [119;105;100;116;104]; a2s [104;101;105;103;104;116];
-   a2s [109;105;110;45;119;105;100;116;104]; a2s [109;97;120;45;104;101;105;103;104;116]].
-Definition css_numbers : list str := [a2s [49]; a2s [50;46;53]; a2s [46;53]; a2s [49;48]].
-Definition css_units : list str :=
-  [a2s [99;104]; a2s [101;109]; a2s [101;120]; a2s [114;101;109]; a2s [112;120];
-   a2s [99;109]; a2s [109;109]; a2s [105;110]; a2s [112;99]; a2s [112;116]].
-(* layout: blanks around the colon, the separator *)
-Definition css_colons : list str := [a2s [58]; a2s [32;58;10]].
-Definition css_seps : list str := [a2s [59]; a2s [59;32]; a2s [32;59;10]].
-
-Definition spec := (str * str * str)%type.
-
-Definition render_spec (colon : str) (s : spec) : str :=
-  let '(p, n, u) := s in p ++ colon ++ n ++ u.
-
-Fixpoint render_specs (colon sep : str) (trailing : bool) (l : list spec) : str :=
-  match l with
-  | [] => []
-  | [s] => render_spec colon s ++ (if trailing then sep else [])
-  | s :: l' => render_spec colon s ++ sep ++ render_specs colon sep trailing l'
-  end.
-
-Definition spec_map (l : list spec) : cmap :=
-  fold_left (fun m s => let '(p, _, u) := s in cset p u m) l [].
-
-Definition all_specs : list spec :=
-  flat_map (fun p => flat_map (fun n => map (fun u => (p, n, u)) css_units) css_numbers) css_props.
-
-Fixpoint cmap_eqb (a b : cmap) : bool :=
-  match a, b with
-  | [], [] => true
-  | (k, v) :: a', (k', v') :: b' => str_eqb k k' && str_eqb v v' && cmap_eqb a' b'
-  | _, _ => false
-  end.
-
-Definition parse_is (val : str) (m : cmap) : bool :=
-  match parse_css_spec val with
-  | Ok (Some m', None) => cmap_eqb m' m
-  | _ => false
-  end.
-
-Definition layouts : list (str * str * bool) :=
-  flat_map (fun c => flat_map (fun s => [(c, s, false); (c, s, true)]) css_seps) css_colons.
-
-Definition check_layouts (l : list spec) : bool :=
-  forallb (fun lay => let '(c, s, t) := lay in parse_is (render_specs c s t l) (spec_map l)) layouts.
-
-Lemma cmap_eqb_eq : forall a b, cmap_eqb a b = true -> a = b.
-Proof.
-  induction a as [|[k v] a IH]; destruct b as [|[k' v'] b]; simpl; intros H; try discriminate; [reflexivity|].
-  apply andb_true_iff in H. destruct H as [H H3]. apply andb_true_iff in H. destruct H as [H1 H2].
-  apply str_eqb_eq in H1, H2. subst. f_equal. apply IH. exact H3.
-Qed.
-
-Lemma parse_is_spec : forall val m, parse_is val m = true -> parse_css_spec val = Ok (Some m, None).
-Proof.
-  unfold parse_is. intros val m H. destruct (parse_css_spec val) as [[[m'|] [e|]]|]; try discriminate.
-  apply cmap_eqb_eq in H. subst. reflexivity.
-Qed.
-
-(* the token space of the bounded statement *)
-Definition pair_specs : list spec :=
-  flat_map (fun p => flat_map (fun n => map (fun u => (p, n, u)) css_units) (firstn 2 css_numbers)) css_props.
-Definition tiny_specs : list spec :=
-  flat_map (fun p => map (fun u => (p, a2s [51], u)) (firstn 2 css_units)) css_props.
-
-Definition bounded_spec_lists : list (list spec) :=
-  map (fun s => [s]) all_specs ++
-  flat_map (fun a => map (fun b => [a; b]) pair_specs) pair_specs ++
-  flat_map (fun a => flat_map (fun b => map (fun c => [a; b; c]) tiny_specs) tiny_specs) tiny_specs.
-
-Lemma bounded_checked : forallb check_layouts bounded_spec_lists = true.
-Proof. vm_compute. reflexivity. Qed.
-
-Theorem parse_rendered_bounded : forall l colon sep trailing,
-  In l bounded_spec_lists -> In (colon, sep, trailing) layouts ->
-  parse_css_spec (render_specs colon sep trailing l) = Ok (Some (spec_map l), None).
-Proof.
-  intros l colon sep trailing Hl Hlay.
-  pose proof bounded_checked as H. rewrite forallb_forall in H. specialize (H l Hl).
-  unfold check_layouts in H. rewrite forallb_forall in H. specialize (H _ Hlay). simpl in H.
-  apply parse_is_spec. exact H.
-Qed.
